@@ -207,7 +207,7 @@ class C15(Prop):
         ("lib/python/pyflyby/_idents.py", "is_identifier"),
     ]
     quick_cases = 10000
-    thorough_cases = 150000
+    thorough_cases = 300000
     quick_deadline_s = 60
     thorough_deadline_s = 600
     rule = ("generated signatures (positional, defaults, *args, keyword-only, **kwargs, names sharing prefixes, non-ASCII "
@@ -261,7 +261,7 @@ class C15(Prop):
 
     def exhaustive_cases(self, tier, rng):
         out = G.small_scope(tier, rng)
-        n_sub = 160 if tier == "thorough" else 6
+        n_sub = 200 if tier == "thorough" else 6
         for _ in range(n_sub):
             out.append(self._gen_subproc(rng))
         return out
